@@ -147,7 +147,7 @@ def check_adjust(ctx):
                 A = np.array([[rng.randint(-2, 2) for _ in range(k)] for _ in range(k)], dtype=float)
                 if abs(np.linalg.det(A)) > 0.5:
                     break
-            c = np.array([rng.randint(-3, 3) for _ in range(k)], dtype=float)
+            c = np.array([rng.randint(-3, 3) for _ in range(k)], dtype=float) * rng.choice([1.0, 1.0, 1e4])     # incl. a location far from the spread
             S2 = S @ A + c
             obs2 = (np.array(obs) @ A + c).tolist()
             with np.errstate(all='ignore'):
